@@ -191,6 +191,8 @@ COMMA_URI_DOCS = [
     ('<a xmlns:p="%s"><p:b/></a>' % TAGURI, '<a xmlns:p="%s"><p:b/><p:b>x</p:b></a>' % TAGURI),      # insert
     ('<a/>', '<a xmlns:p="%s"/>' % TAGURI),                                                           # insert-namespace
     ('<a xmlns:p="%s"><b p:k="v"/></a>' % TAGURI, '<a xmlns:p="%s"><b p:j="v"/></a>' % TAGURI),      # rename-attribute
+    ('<a/>', '<a xmlns:p="urn:a,,b"/>'), ('<a/>', '<a xmlns:p="urn:a," xmlns:q=",x"><q:k/></a>'),                   # empty pieces of the re-joined uri
+    ('<a xmlns:p="u,,v,"><p:b/></a>', '<a xmlns:p="u,,v,"><p:c p:k=","/></a>'),
     # not affected: the names do not reach the script
     ('<a xmlns:p="%s"><p:b>1</p:b></a>' % TAGURI, '<a xmlns:p="%s"><p:b>2</p:b></a>' % TAGURI),
     ('<a xmlns:p="%s"><p:b/><p:c/></a>' % TAGURI, '<a xmlns:p="%s"><p:c/><p:b/></a>' % TAGURI),
